@@ -11,8 +11,8 @@ import (
 // Effects is a syntactic over-approximation of what a piece of code may do to
 // the heap, at the granularity of heap families (type-based).
 type Effects struct {
-	All      bool            // unknown code: any old object may be modified
-	AllocAll bool            // may allocate in any family (but writes follow Writes)
+	All      bool               // unknown code: any old object may be modified
+	AllocAll bool               // may allocate in any family (but writes follow Writes)
 	Writes   map[string]famInfo // base families with writes that may hit pre-existing objects
 	Allocs   map[string]famInfo // base families with allocations
 	Why      string
@@ -24,7 +24,9 @@ type famInfo struct {
 	t    types.Type
 }
 
-func newEffects() *Effects { return &Effects{Writes: map[string]famInfo{}, Allocs: map[string]famInfo{}} }
+func newEffects() *Effects {
+	return &Effects{Writes: map[string]famInfo{}, Allocs: map[string]famInfo{}}
+}
 
 func (a *Effects) add(b *Effects) {
 	if b.All {
@@ -50,6 +52,7 @@ func (a *Effects) none() bool {
 
 type effCtx struct {
 	P       *Program
+	root    *FuncContract // contract of the unit being encoded
 	profile string
 	memo    map[*ssa.Function]*Effects
 	busy    map[*ssa.Function]bool
@@ -398,8 +401,13 @@ func (c *effCtx) ofCall(fn *ssa.Function, ci ssa.CallInstruction) *Effects {
 	case *ssa.MakeClosure:
 		return c.ofFunc(cal.Fn.(*ssa.Function))
 	}
-	// dynamic function value
-	if fc := c.P.Contracts.Funcs[FuncKey(fn)]; fc != nil {
+	// dynamic function value: named by a `calls` clause of the function's own contract or, for a
+	// helper without contract (it is inlined into the unit), of the unit's root contract
+	fcs := c.P.Contracts.Funcs[FuncKey(fn)]
+	if fcs == nil {
+		fcs = c.root
+	}
+	if fc := fcs; fc != nil {
 		if key, ok := fc.CallsAs[describeValue(fn, com.Value)]; ok {
 			if sc := c.P.Contracts.Funcs[key]; sc != nil {
 				if target := c.P.Funcs[key]; target != nil && sc.Kind == "func" {
@@ -541,7 +549,11 @@ func (c *effCtx) logWalk(fn *ssa.Function, blocks []*ssa.BasicBlock, out map[str
 			case *ssa.MakeClosure:
 				c.logVisit(cal.Fn.(*ssa.Function), out, seen)
 			default:
-				if fc := c.P.Contracts.Funcs[FuncKey(fn)]; fc != nil {
+				fcs := c.P.Contracts.Funcs[FuncKey(fn)]
+				if fcs == nil {
+					fcs = c.root
+				}
+				if fc := fcs; fc != nil {
 					if key, ok := fc.CallsAs[describeValue(fn, com.Value)]; ok {
 						if sc := c.P.Contracts.Funcs[key]; sc != nil {
 							if sc.Logged {
